@@ -21,6 +21,11 @@ def classify_diff(case, diffs):
 
 def cases(rng, tier):
     n = {"quick": 200, "thorough": 4000, "search": 150}[tier]
+    # fixed-size columns larger than 64 KiB: every element converted exactly once, wherever a reader might cut
+    from checks.C04 import big_case
+    shapes = [([2, 4], 20000), ([5, 13], 8193)] if tier != "thorough" else [([2, 4], 20000), ([5, 13], 8193), ([3, 8], 30000), ([13], 4097), ([2], 70001), ([6, 7, 9], 12345)]
+    for k, (tys, rows) in enumerate(shapes):
+        yield big_case("big%d" % k, G.big_table(rng, tys, rows), be=True)
     for i in range(n):
         t = G.rand_table(rng, maxrows={"quick": 40, "thorough": 300, "search": 30}[tier])
         if i % 2 == 0:
